@@ -694,12 +694,20 @@ _CHAINS = {
 }
 
 
-def relations_text(system, rng):
+def relations_text(system, rng, offset=None):
     """a relations file equivalent to the packaged one for `system`: lines permuted,
-    sides of equalities swapped, chains split."""
+    sides of equalities swapped, chains split.  offset=[a, b, d]: the plain equality between ca and cb is written  ca = cb + d  instead."""
     lines = []
     for chain in _CHAINS[system]:
         chain = list(chain)
+        if offset is not None and len(chain) >= 2 and chain[0] == "c" + offset[0] and chain[1] == "c" + offset[1]:
+            a, b, d = offset
+            lines.append(rng.choice([f"c{a} = c{b} + {d}", f"c{a} - {d} = c{b}", f"c{b} = c{a} - {d}"]) if d >= 0 else
+                         rng.choice([f"c{a} = c{b} - {-d}", f"c{b} = c{a} + {-d}"]))
+            rest = chain[2:]
+            for x in rest:       # further members of the chain stay tied to cb
+                lines.append(f"c{b} = {x}")
+            continue
         if rng.random() < 0.5:
             chain.reverse()
         if len(chain) > 2 and rng.random() < 0.5:       # split a = b = c into a = b ; b = c (or a = c)
